@@ -37,12 +37,20 @@ type Msg struct {
 	Seed         uint64 `json:"seed"`
 	Compressible bool   `json:"compressible"`
 	Flush        bool   `json:"flush"` // flush the pipeline after this message
+	// Reuse: do not send a fresh object but overwrite, field by field, the
+	// object that carried the previous message of the same kind (callers of the
+	// encoder re-use and modify message objects between calls, e.g. rsync's
+	// Transmission and Operation); sizes cached inside the object are then stale.
+	Reuse bool `json:"reuse,omitempty"`
 }
 
 func (m Msg) String() string {
 	f := ""
+	if m.Reuse {
+		f = "+reuse"
+	}
 	if m.Flush {
-		f = "+flush"
+		f += "+flush"
 	}
 	return fmt.Sprintf("%s(%d)%s", kindNames[m.Kind], m.Size, f)
 }
@@ -204,4 +212,65 @@ func (m Msg) Build() proto.Message {
 		return &remote.EndpointRequest{Transition: req}
 	}
 	panic("unknown message kind")
+}
+
+// overwrite makes old carry the content of fresh by assigning fields, nested
+// messages included, without resetting the objects (so whatever they cache
+// about their previous content stays behind). It reports false for kinds it
+// does not handle.
+func overwrite(old, fresh proto.Message) bool {
+	switch o := old.(type) {
+	case *rsync.Transmission:
+		f := fresh.(*rsync.Transmission)
+		o.ExpectedSize, o.Done, o.Error = f.ExpectedSize, f.Done, f.Error
+		if o.Operation != nil && f.Operation != nil {
+			o.Operation.Data, o.Operation.Start, o.Operation.Count = f.Operation.Data, f.Operation.Start, f.Operation.Count
+		} else {
+			o.Operation = f.Operation
+		}
+	case *remote.InitializeSynchronizationResponse:
+		o.Error = fresh.(*remote.InitializeSynchronizationResponse).Error
+	case *remote.ScanResponse:
+		f := fresh.(*remote.ScanResponse)
+		o.Error, o.TryAgain = f.Error, f.TryAgain
+		// Keep the old operation objects where possible.
+		for i, op := range f.SnapshotDelta {
+			if i < len(o.SnapshotDelta) {
+				o.SnapshotDelta[i].Data, o.SnapshotDelta[i].Start, o.SnapshotDelta[i].Count = op.Data, op.Start, op.Count
+			} else {
+				o.SnapshotDelta = append(o.SnapshotDelta, op)
+			}
+		}
+		if len(o.SnapshotDelta) > len(f.SnapshotDelta) {
+			o.SnapshotDelta = o.SnapshotDelta[:len(f.SnapshotDelta)]
+		}
+	case *remote.StageResponse:
+		f := fresh.(*remote.StageResponse)
+		o.Paths, o.Error = f.Paths, f.Error
+		for i, sig := range f.Signatures {
+			if i < len(o.Signatures) {
+				o.Signatures[i].BlockSize, o.Signatures[i].LastBlockSize, o.Signatures[i].Hashes = sig.BlockSize, sig.LastBlockSize, sig.Hashes
+			} else {
+				o.Signatures = append(o.Signatures, sig)
+			}
+		}
+		if len(o.Signatures) > len(f.Signatures) {
+			o.Signatures = o.Signatures[:len(f.Signatures)]
+		}
+	case *remote.EndpointRequest:
+		f := fresh.(*remote.EndpointRequest)
+		switch {
+		case o.Stage != nil && f.Stage != nil:
+			o.Stage.Paths, o.Stage.Digests = f.Stage.Paths, f.Stage.Digests
+		case o.Supply != nil && f.Supply != nil:
+			o.Supply.Paths, o.Supply.Signatures = f.Supply.Paths, f.Supply.Signatures
+		case o.Transition != nil && f.Transition != nil:
+			o.Transition.Transitions = f.Transition.Transitions
+		default:
+			o.Poll, o.Scan, o.Stage, o.Supply, o.Transition = f.Poll, f.Scan, f.Stage, f.Supply, f.Transition
+		}
+	default:
+		return false
+	}
+	return true
 }
